@@ -215,7 +215,11 @@ def run_file(ctx, spec, idx):
             fc['max_nulls'] = 0
         if 'max_length' in fc and rng.random() < 0.5:
             fc['max_length'] = max(0, fc['max_length'] - 1)
-        if rng.random() < 0.2 and fc.get('type') != 'date':     # (date bounds need their "type": "date" to stay well formed)
+        if fc.get('type') == 'real' and rng.random() < 0.5:
+            fc['type'] = 'int'              # sloppy checking accepts whole-number reals, strict does not
+        elif fc.get('type') == 'int' and rng.random() < 0.2:
+            fc['type'] = 'bool'
+        elif rng.random() < 0.2 and fc.get('type') != 'date':     # (date bounds need their "type": "date" to stay well formed)
             fc['type'] = 'string' if fc.get('type') != 'string' else 'int'
     with open(os.path.join(d, 'pert.tdda'), 'w') as f:
         json.dump(pert, f)
@@ -247,8 +251,10 @@ def run_file(ctx, spec, idx):
         res = run_cli(ctx, args, d)
         rec.event('cli:verify')
         try:
-            v = lib(lambda: verify_df(load_df(dpath), os.path.join(d, cfile), **kw))
-            want_out = str(v) + '\n'
+            buf = io.StringIO()
+            with contextlib.redirect_stdout(buf), contextlib.redirect_stderr(io.StringIO()):
+                v = verify_df(load_df(dpath), os.path.join(d, cfile), **kw)
+            want_out = buf.getvalue() + str(v) + '\n'     # (the library may itself print repair diagnostics)
         except Exception as e:
             want_out = None
             if res.status == 0:
@@ -351,7 +357,7 @@ def run_file(ctx, spec, idx):
                     rec.violation('detect_output_differs', {'case': case, 'mech': mech,
                                                             'facts': {'cli': open(cp, 'rb').read()[:400].decode('utf-8', 'replace'),
                                                                       'library': open(lp, 'rb').read()[:400].decode('utf-8', 'replace')}})
-            if res.out != str(v) + '\n':
+            if res.out != lib_stdout + str(v) + '\n':
                 rec.violation('detect_report_differs', {'case': case, 'mech': mech, 'facts': {'cli': res.out[-400:], 'library': str(v)[-400:]}})
         crosscheck(args, res, files=[outname] if ofmt != 'dash' else [])
     # ---------------- bad invocations -------------------------------------------------------
